@@ -135,6 +135,15 @@ def run(rep, tier, rng):
             for k in dumped:
                 rep.nontrivial.add((traits[k], entry, len(dumped) == len(traits)))
         rep.count("pairs_" + kind)
+        # how many dumped slots actually carried generated code (rather than an error that dump leaves alone)
+        if kind == "type" and o0.get("status") == "ok" and o0.get("parses"):
+            g0 = gen_items(o0, entry)[1]
+            if not (len(g0) == 1 and g0[0]["kind"] == "compile_error" and len(traits) > 1):
+                sl, _ = C.impl_slots(g0, traits)
+                for k in dumped:
+                    rep.count("dumped_slots_with_code" if sl[k]["status"] == "impl" else "dumped_slots_error_or_missing")
+        elif kind == "impl" and o0.get("status") == "ok" and o0.get("parses"):
+            rep.count("dumped_slots_with_code" if not any(x["kind"] == "compile_error" for x in gen_items(o0, "attr")[1]) else "dumped_slots_error_or_missing")
         if r:
             rep.violation(f"C19|{r[0]}|{kind}", f"{r[0]}: {reqs[i1]['attr'] or reqs[i1]['item'][:200]}\n{r[1]}",
                           {"r0": reqs[i0], "r1": reqs[i1], "kind": kind, "traits": traits,
